@@ -371,12 +371,12 @@ func (p *proxyBomb) SubscribeBoom() (func(), chan int32, error) {
 // GetDelay updates the property value
 func (p *proxyBomb) GetDelay() (ret int32, err error) {
 	name := value.String("delay")
-	value, err := p.Property(name)
+	propValue, err := p.Property(name)
 	if err != nil {
 		return ret, fmt.Errorf("get property: %s", err)
 	}
 	var buf bytes.Buffer
-	err = value.Write(&buf)
+	err = propValue.Write(&buf)
 	if err != nil {
 		return ret, fmt.Errorf("read response: %s", err)
 	}
